@@ -563,3 +563,46 @@ Proof.
   intros C. pose proof (seq_next_ext q id ph d w) as X.
   destruct (seq_next q id ph d w); rewrite (x_cur _ _ _ X); exact C.
 Qed.
+
+(* ================================================================== the timed reader and the stream reader agree *)
+(* On a connection whose data has all arrived (nothing queued, peer closed) the timed read_packet of Client.v
+   is exactly Transport.read_frame on the buffered bytes: the C04 theorems about read_frame (header agreement,
+   k concatenated packets, truncation) are theorems about what the client reads. *)
+
+Definition settled (c : conn) : Prop := k_queue c = [] /\ k_close c = true.
+
+Lemma rx_t_settled f c n t : settled c ->
+  rx_t (S f) c n t =
+  if n <=? blen (k_buf c) then RxOk (take n (k_buf c)) t {| k_queue := []; k_close := true; k_buf := drop n (k_buf c) |}
+  else RxEof t.
+Proof.
+  intros [Hq Hc]. cbn [rx_t]. rewrite Hq, Hc. destruct (n <=? blen (k_buf c)); reflexivity.
+Qed.
+
+Theorem read_packet_t_settled c t : settled c ->
+  read_packet_t c t =
+  match read_frame (k_buf c) with
+  | Some (f, r) => RpFrame f t {| k_queue := []; k_close := true; k_buf := r |}
+  | None => RpEof t
+  end.
+Proof.
+  intros Hs. pose proof Hs as [Hq Hc]. unfold read_packet_t. rewrite Hq. cbn [length].
+  rewrite (rx_t_settled 0 c 3 t Hs).
+  destruct (k_buf c) as [|b0 [|b1 [|b2 r]]] eqn:Eb; try reflexivity.
+  change (3 <=? blen (b0 :: b1 :: b2 :: r)) with (3 <=? N.of_nat (S (S (S (length r))))).
+  destruct (3 <=? N.of_nat (S (S (S (length r))))) eqn:E3; [|lia].
+  change (take 3 (b0 :: b1 :: b2 :: r)) with [b0; b1; b2]. change (drop 3 (b0 :: b1 :: b2 :: r)) with r.
+  set (c1 := {| k_queue := []; k_close := true; k_buf := r |}).
+  assert (S1 : settled c1) by (split; reflexivity).
+  cbn [read_frame]. destruct (b2 =? 255) eqn:E.
+  - rewrite (rx_t_settled 0 c1 2 t S1). cbn [k_buf c1].
+    destruct r as [|lo [|hi r2]]; try reflexivity.
+    change (2 <=? blen (lo :: hi :: r2)) with (2 <=? N.of_nat (S (S (length r2)))).
+    destruct (2 <=? N.of_nat (S (S (length r2)))) eqn:E2; [|lia].
+    change (take 2 (lo :: hi :: r2)) with [lo; hi]. change (drop 2 (lo :: hi :: r2)) with r2.
+    set (c2 := {| k_queue := []; k_close := true; k_buf := r2 |}). cbv iota.
+    rewrite (rx_t_settled 0 c2 (hi * 256 + lo) t ltac:(split; reflexivity)). cbn [k_buf c2].
+    destruct (blen r2 <? hi * 256 + lo) eqn:E4; destruct (hi * 256 + lo <=? blen r2) eqn:E5; try lia; reflexivity.
+  - rewrite (rx_t_settled 0 c1 b2 t S1). cbn [k_buf c1].
+    destruct (blen r <? b2) eqn:E4; destruct (b2 <=? blen r) eqn:E5; try lia; reflexivity.
+Qed.
